@@ -151,7 +151,8 @@ def handle (op : String) (req : Json) : R Json := do
         pure (jObj [("outside_fixed", jBool (specOutside x out mask b0 b1 padMode part)),
                     ("blocks_from_input", jBool (specBlocks x out mask b0 b1 padMode part)),
                     ("conserved_applies", jBool applies),
-                    ("conserved", jBool (!applies || specConserved x out))])
+                    ("conserved", jBool (!applies || specConserved x out)),
+                    ("blocks_permuted", jBool (!applies || specBlockMultiset x out mask b0 b1 padMode part))])
     pure (jObj [("idx", jList jNat idx), ("aliases", jBool aliases),
                 ("model", jOpt (jList jRat) (call.map (fun c => flat c.ret))),
                 ("x_after", jOpt (jList jRat) (call.map (fun c => flat c.xAfter))),
